@@ -96,6 +96,46 @@ pub fn configs(n_links: usize, tag: &str) -> Vec<Config> {
             ambiguous: false,
         });
     }
+    // (ii'') threshold 2, the dissenter at every position (smallest / middle / largest key id)
+    for pos in 0..n_links {
+        let dir = util::fresh_dir(&format!("c13-{tag}"));
+        let lay = world::layout(vec![world::step("s", 2, f)], vec![], f, world::far_future());
+        for (i, k) in f.iter().enumerate() {
+            let l = world::link("s", world::arts(&[("m", 1)]), world::arts(&[("a", if i == pos { 9 } else { 1 }), ("zz", if i == pos { 1 } else { 1 })]));
+            write_link(&dir, "s", k, &world::sign_link(l, &[k]));
+        }
+        out.push(Config {
+            name: format!("ii:thr2:{n_links}links-dissenter-at-{pos}"),
+            layout: world::sign_layout(lay, &[owner]),
+            owners: world::owner_map(&[owner]),
+            dir,
+            ambiguous: n_links > 2,
+        });
+    }
+    // (vii) two ambiguous steps and a third step that MATCHes both
+    {
+        let dir = util::fresh_dir(&format!("c13-{tag}"));
+        let g = keys::get("ed4");
+        let s3 = world::step("u", 1, &[g])
+            .add_expected_material(ArtifactRule::Match { pattern: "a".into(), in_src: None, with: Artifact::Products, in_dst: None, from: "s".into() })
+            .add_expected_material(ArtifactRule::Match { pattern: "b".into(), in_src: None, with: Artifact::Products, in_dst: None, from: "t".into() })
+            .add_expected_material(ArtifactRule::Disallow("*".into()));
+        let mut table: Vec<&Key> = f.to_vec();
+        table.push(g);
+        let lay = world::layout(vec![world::step("s", 1, f), world::step("t", 0, f), s3], vec![], &table, world::far_future());
+        for (i, k) in f.iter().enumerate() {
+            write_link(&dir, "s", k, &world::sign_link(world::link("s", world::arts(&[]), world::arts(&[("a", 10 + i as u8)])), &[k]));
+            write_link(&dir, "t", k, &world::sign_link(world::link("t", world::arts(&[]), world::arts(&[("b", 30 - i as u8)])), &[k]));
+        }
+        write_link(&dir, "u", g, &world::sign_link(world::link("u", world::arts(&[("a", 10), ("b", 30)]), world::arts(&[("c", 2)])), &[g]));
+        out.push(Config {
+            name: format!("vii:two-ambiguous-steps-and-a-matching-step:{n_links}links"),
+            layout: world::sign_layout(lay, &[owner]),
+            owners: world::owner_map(&[owner]),
+            dir,
+            ambiguous: true,
+        });
+    }
     // (ii') threshold 2, all equal -> accepted
     {
         let dir = util::fresh_dir(&format!("c13-{tag}"));
@@ -375,7 +415,7 @@ fn site_lint() -> (Vec<String>, usize) {
 
 pub fn run(tier: Tier) -> i32 {
     let mut c = Check::new("C13", "model_checking", tier);
-    let (bound2, bound3, cap) = if tier.thorough() { (99, 3, 400_000u64) } else { (99, 2, 20_000u64) };
+    let (bound2, bound3, cap) = if tier.thorough() { (99, 4, 2_000_000u64) } else { (99, 3, 60_000u64) };
     let mut acc = Acc::new();
     let mut per_config = BTreeMap::new();
     let mut capped = vec![];
